@@ -239,8 +239,10 @@ func (p *Prog) Points() []int {
 			case SWhile:
 				walk(s.Body, s.BodyEnd, s.BodyTerm)
 			case SIOManip:
-				if s.IOKw != "io_forget_history" {
-					walk(s.Body, s.BodyEnd, s.BodyTerm)
+				walk(s.Body, s.BodyEnd, s.BodyTerm)
+			case SIterate:
+				for _, rd := range s.Rounds {
+					walk(rd.Body, rd.BodyEnd, rd.BodyTerm)
 				}
 			}
 		}
